@@ -5,6 +5,7 @@ CONSTANTS
   Tasks <- T3
   MCGated <- G2
   MaxOps <- Ops1_7
+  WithClear = FALSE
   FixJoin = FALSE
   FixGrow = FALSE
   Depth = 100
